@@ -1,6 +1,7 @@
 #![allow(dead_code)]
 mod hub;
 mod seq;
+mod fsops;
 mod provider;
 mod runs;
 mod srv;
@@ -37,6 +38,7 @@ fn main() {
         "overtake" => seq::engine_overtake(&rt, cases, &mut out),
         "sub" => sub::engine_sub(&rt, cases, &mut out),
         "sse" => sse::engine_sse(&rt, cases, &mut out),
+        "patch" => fsops::engine_patch(&rt, cases, &mut out),
         other => {
             eprintln!("unknown engine {other}");
             std::process::exit(2);
